@@ -673,6 +673,11 @@ func writeReplay(v *Verifier, path, prop string, vi *violation, scratch string, 
 				rep["observed"] = rr.Observed
 				rep["verdict"] = rr.Verdict
 				rep["input"] = rr.Input
+				rep["go_test_source"] = rr.Source
+				rep["hints"] = rr.Hints
+				rep["pos"] = rr.Pos
+				rep["kind_msg"] = rr.KindMsg
+				rep["pkg_rel"] = rr.PkgRel
 				found = rr.Verdict == "confirmed"
 			}
 		}
